@@ -11,6 +11,10 @@ type previewReader struct {
 	logger zerolog.Logger
 
 	PreviewImage []byte
+
+	// chunk is the read buffer. It belongs to the reader, not to one call:
+	// a file may hold tens of thousands of preview boxes.
+	chunk [2048]byte
 }
 
 func NewPreviewReader(l zerolog.Logger) previewReader {
@@ -24,8 +28,12 @@ func (pr *previewReader) RenderPreview(r io.Reader, h meta.PreviewHeader) error 
 	// The size field comes from the file: grow the image as data arrives
 	// instead of allocating whatever it claims up front. The first buffer is one chunk:
 	// a file may hold hundreds of small preview boxes, each of which gets here.
-	var chunk [2048]byte
-	img := make([]byte, 0, len(chunk))
+	chunk := pr.chunk[:]
+	first := uint32(len(chunk))
+	if h.Size < first {
+		first = h.Size // an image of a few bytes does not need a whole chunk
+	}
+	img := make([]byte, 0, first)
 	offset := uint32(0)
 	maxSize := uint32(len(chunk))
 	for {
